@@ -487,12 +487,20 @@ theorem eusCycleDrain_frame {app : App} : ∀ (n i : Nat) (s s' : State) (b b' :
     · simp only [pure, Except.pure, Except.ok.injEq, Prod.mk.injEq] at h
       obtain ⟨rfl, _⟩ := h
       exact Loop.refl _ _
-    · split at h
-      · exact Loop.skip (ih _ _ _ _ _ h)
-      · split at h
-        · rename_i s1 o hv
-          exact Loop.step (euCycle70_frame hv) (ih _ _ _ _ _ h)
-        · cases h
+    · have key : ∀ c : Bool, (if c = true then eusCycleDrain app n (i + 1) s b
+          else match euCycle70 app s i s.base.cycles with
+            | Except.ok (s, _) => eusCycleDrain app n (i + 1) s true
+            | Except.error e => throw e) = .ok (s', b') → Loop (n + 1) s s' := by
+        intro c hc
+        split at hc
+        · exact Loop.skip (ih _ _ _ _ _ hc)
+        · split at hc
+          · rename_i s1 o hv
+            exact Loop.step (euCycle70_frame hv) (ih _ _ _ _ _ hc)
+          · cases hc
+      split at h
+      · exact key _ h
+      · exact key _ h
 
 /-- what the control flow after the units does: the execute units and the count stay, the cycle counter does not go back -/
 structure Tail (s s' : State) : Prop where
@@ -528,7 +536,6 @@ theorem finish70_tail {s s' : State} {h : Halt} {ev : Event} (hf : finish70 s h 
     have hex : (0 : Int) ≤ extra := by
       refine foldlM_le _ (fun (acc : List Byte × Int) => acc.2) ?_ _ _ _ hv
       intro acc i acc' hi
-      simp only [bind, Except.bind, pure, Except.pure] at hi
       split at hi
       · cases hi
       · rename_i cc _
@@ -549,13 +556,14 @@ theorem goRetB70_tail (s : State) : Tail s (goRetB70 s).1 := by
   unfold goRetB70
   split <;> exact ⟨rfl, rfl, Int.le_refl _⟩
 
+theorem goRetB70_tail' {s0 s : State} (h : Tail s0 s) : Tail s0 (goRetB70 s).1 :=
+  ⟨(goRetB70_tail s).len.trans h.len, (goRetB70_tail s).exe.trans h.exe, Int.le_trans h.cyc (goRetB70_tail s).cyc⟩
+
 theorem goRetA70_tail (s : State) : Tail s (goRetA70 s).1 := by
   unfold goRetA70
   split
   · exact ⟨rfl, rfl, Int.le_refl _⟩
-  · have t := goRetB70_tail { s with base := { { s.base with cycles := s.base.cycles + 1 } with
-        writeBus := s.base.writeBus.connect (s.base.cycles + 1) } }
-    exact ⟨t.len, t.exe, by have := t.cyc; simp only at this; omega⟩
+  · exact goRetB70_tail' ⟨rfl, rfl, by show s.base.cycles ≤ s.base.cycles + 1; omega⟩
 
 theorem flushAll70_frame {s s' : State} {pc : Word} (h : flushAll70 s pc = .ok s') :
     s'.base.eus.length = s.base.eus.length ∧ s'.base.executed = s.base.executed ∧ s'.base.cycles = s.base.cycles := by
@@ -601,5 +609,305 @@ theorem goFlushW70_tail (seq pc : Word) (fc : Int) (e : Bool) : ∀ (n i : Nat) 
     · split at h
       · cases h; exact ⟨rfl, rfl, Int.le_refl _⟩
       · exact ih _ _ _ _ h
+
+/-- one tick: at most one instruction per execute unit runs; the cycle counter advances — or no instruction ran and it
+did not go back (the write units' drain loops inside the flush path) -/
+structure Tick (s s' : State) : Prop where
+  len : s'.base.eus.length = s.base.eus.length
+  lo : s.base.executed ≤ s'.base.executed
+  hi : s'.base.executed ≤ s.base.executed + s.base.eus.length
+  cyc : s.base.cycles + 1 ≤ s'.base.cycles ∨ (s'.base.executed = s.base.executed ∧ s.base.cycles ≤ s'.base.cycles)
+
+theorem cycleM_tick {app : App} {s s' : State} {ev : Event} (h : cycleM app s = .ok (s', ev)) : Tick s s' := by
+  unfold cycleM at h
+  split at h
+  · -- the final loop
+    simp only [bind, Except.bind, pure, Except.pure] at h
+    split at h
+    · cases h
+    · rename_i s1 h1
+      have f1 := snoopAll_frame h1
+      split at h
+      · cases h
+      · rename_i v hv
+        obtain ⟨s2, busy⟩ := v
+        have f2 := eusCycleDrain_frame _ _ _ _ _ _ hv
+        simp only [Loop] at h f1 f2
+        have l2 : s2.base.eus.length = s.base.eus.length := f2.1.trans f1.len
+        have lo2 : s.base.executed ≤ s2.base.executed := by have := f2.2.1; rw [f1.exe] at this; exact this
+        have hi2 : s2.base.executed ≤ s.base.executed + s.base.eus.length := by
+          have := f2.2.2.1; rw [f1.exe, f1.len] at this; exact this
+        have c2 : s2.base.cycles = s.base.cycles + 1 := f2.2.2.2.trans f1.cyc
+        split at h
+        · cases h; exact ⟨l2, lo2, hi2, Or.inl (by omega)⟩
+        · have t := finish70_tail h
+          exact ⟨t.len.trans l2, by rw [t.exe]; exact lo2, by rw [t.exe]; exact hi2, Or.inl (by have := t.cyc; omega)⟩
+  · split at h
+    · -- normal
+      simp only [bind, Except.bind, pure, Except.pure] at h
+      split at h
+      · cases h
+      · rename_i b1 h1
+        have f1 := Proofs.Mvp61.fetchCycle_frame h1
+        split at h
+        · cases h
+        · rename_i b2 h2
+          have f2 := Proofs.Mvp61.decodeCycle_frame h2
+          split at h
+          · cases h
+          · rename_i b3 h3
+            have f3 := Proofs.Mvp61.controlCycle_frame h3
+            have f123 := (f1.trans f2).trans f3
+            have l3 : b3.eus.length = s.base.eus.length := f123.len
+            have e3 : b3.executed = s.base.executed := f123.exe
+            have c3 : b3.cycles = s.base.cycles + 1 := f123.cyc
+            split at h
+            · simp only [Except.ok.injEq, Prod.mk.injEq] at h
+              obtain ⟨rfl, _⟩ := h
+              exact ⟨l3, by show s.base.executed ≤ b3.executed; omega, by show b3.executed ≤ _; omega,
+                     Or.inl (by show s.base.cycles + 1 ≤ b3.cycles; omega)⟩
+            split at h
+            · cases h
+            · rename_i s4 h4
+              have f4 := snoopAll_frame h4
+              split at h
+              · cases h
+              · rename_i v hv
+                obtain ⟨s5, acc⟩ := v
+                have f5 := eusCycle70_frame _ _ _ _ _ _ hv
+                simp only [Loop] at h f4 f5
+                have l5 : s5.base.eus.length = s.base.eus.length := (f5.1.trans f4.len).trans l3
+                have lo5 : s.base.executed ≤ s5.base.executed := by
+                  have := f5.2.1; rw [f4.exe] at this; simp only at this; omega
+                have hi5 : s5.base.executed ≤ s.base.executed + s.base.eus.length := by
+                  have := f5.2.2.1; rw [f4.exe, f4.len] at this; simp only at this; omega
+                have c5 : s5.base.cycles = s.base.cycles + 1 := by rw [f5.2.2.2, f4.cyc]; exact c3
+                split at h
+                · simp only [Except.ok.injEq, Prod.mk.injEq] at h
+                  obtain ⟨rfl, _⟩ := h
+                  exact ⟨l5, lo5, hi5, Or.inl (by omega)⟩
+                · split at h
+                  · cases h
+                  · rename_i b6 h6
+                    have f6 := Proofs.Mvp61.wusCycleB_frame h6
+                    have l6 : b6.eus.length = s.base.eus.length := f6.len.trans l5
+                    have lo6 : s.base.executed ≤ b6.executed := by rw [f6.exe]; exact lo5
+                    have hi6 : b6.executed ≤ s.base.executed + s.base.eus.length := by rw [f6.exe]; exact hi5
+                    have c6 : b6.cycles = s.base.cycles + 1 := by rw [f6.cyc]; exact c5
+                    split at h
+                    · simp only [Except.ok.injEq] at h
+                      have hs := congrArg Prod.fst h
+                      simp only at hs
+                      subst hs
+                      have t := goRetA70_tail { s5 with base := b6 }
+                      exact ⟨t.len.trans l6, by rw [t.exe]; exact lo6, by rw [t.exe]; exact hi6,
+                             Or.inl (by have := t.cyc; simp only at this; omega)⟩
+                    · split at h
+                      · simp only [Except.ok.injEq, Prod.mk.injEq] at h
+                        obtain ⟨rfl, _⟩ := h
+                        exact ⟨by simp only [List.length_map]; exact l6, lo6, hi6, Or.inl (by show s.base.cycles + 1 ≤ b6.cycles; omega)⟩
+                      · split at h
+                        · simp only [toDrain, Except.ok.injEq, Prod.mk.injEq] at h
+                          obtain ⟨rfl, _⟩ := h
+                          exact ⟨l6, lo6, hi6, Or.inl (by show s.base.cycles + 1 ≤ b6.cycles; omega)⟩
+                        · simp only [Except.ok.injEq, Prod.mk.injEq] at h
+                          obtain ⟨rfl, _⟩ := h
+                          exact ⟨l6, lo6, hi6, Or.inl (by show s.base.cycles + 1 ≤ b6.cycles; omega)⟩
+    · -- retA
+      simp only [bind, Except.bind, pure, Except.pure] at h
+      split at h
+      · cases h
+      · rename_i s1 h1
+        have f1 := snoopAll_frame h1
+        split at h
+        · cases h
+        · rename_i v hv
+          obtain ⟨s2, e⟩ := v
+          have f2 := eusCycleBusy70_frame _ _ _ _ _ hv
+          simp only [Loop] at h f1 f2
+          have l2 : s2.base.eus.length = s.base.eus.length := f2.1.trans f1.len
+          have lo2 : s.base.executed ≤ s2.base.executed := by have := f2.2.1; rw [f1.exe] at this; exact this
+          have hi2 : s2.base.executed ≤ s.base.executed + s.base.eus.length := by
+            have := f2.2.2.1; rw [f1.exe, f1.len] at this; exact this
+          have c2 : s2.base.cycles = s.base.cycles + 1 := f2.2.2.2.trans f1.cyc
+          split at h
+          · simp only [Except.ok.injEq, Prod.mk.injEq] at h
+            obtain ⟨rfl, _⟩ := h
+            exact ⟨l2, lo2, hi2, Or.inl (by omega)⟩
+          · split at h
+            · cases h
+            · rename_i b3 h3
+              have f3 := Proofs.Mvp61.wusCycle_frame h3
+              simp only [Except.ok.injEq] at h
+              have hs := congrArg Prod.fst h
+              simp only at hs
+              subst hs
+              have t := goRetA70_tail { s2 with base := b3 }
+              exact ⟨t.len.trans (f3.len.trans l2), by rw [t.exe, f3.exe]; exact lo2, by rw [t.exe, f3.exe]; exact hi2,
+                     Or.inl (by have := t.cyc; have := f3.cyc; simp only at *; omega)⟩
+    · -- retB
+      simp only [bind, Except.bind, pure, Except.pure] at h
+      split at h
+      · cases h
+      · rename_i b1 h1
+        have f1 := Proofs.Mvp61.wusCycle_frame h1
+        simp only [Except.ok.injEq] at h
+        have hs := congrArg Prod.fst h
+        simp only at hs
+        subst hs
+        have t := goRetB70_tail { s with base := { { b1 with cycles := b1.cycles + 1 } with
+          writeBus := b1.writeBus.connect (b1.cycles + 1) } }
+        exact ⟨t.len.trans f1.len, by rw [t.exe]; show s.base.executed ≤ b1.executed; rw [f1.exe]; exact Nat.le_refl _,
+               by rw [t.exe]; show b1.executed ≤ _; rw [f1.exe]; exact Nat.le_add_right _ _,
+               Or.inl (by have := t.cyc; have := f1.cyc; simp only at *; omega)⟩
+    · -- flushF
+      rename_i seq pc fc _
+      simp only [bind, Except.bind, pure, Except.pure] at h
+      split at h
+      · cases h
+      · rename_i s1 h1
+        have f1 := snoopAll_frame h1
+        split at h
+        · cases h
+        · rename_i v hv
+          obtain ⟨s2, acc⟩ := v
+          have f2 := eusCycleFlush70_frame _ _ _ _ _ _ _ hv
+          simp only [Loop] at h f1 f2
+          have l2 : s2.base.eus.length = s.base.eus.length := f2.1.trans f1.len
+          have lo2 : s.base.executed ≤ s2.base.executed := by have := f2.2.1; rw [f1.exe] at this; exact this
+          have hi2 : s2.base.executed ≤ s.base.executed + s.base.eus.length := by
+            have := f2.2.2.1; rw [f1.exe, f1.len] at this; exact this
+          have c2 : s2.base.cycles = s.base.cycles + 1 := f2.2.2.2.trans f1.cyc
+          split at h
+          · simp only [Except.ok.injEq, Prod.mk.injEq] at h
+            obtain ⟨rfl, _⟩ := h
+            exact ⟨l2, lo2, hi2, Or.inl (by omega)⟩
+          · have t := goFlushW70_tail _ _ _ _ _ _ _ _ _ h
+            exact ⟨t.len.trans l2, by rw [t.exe]; exact lo2, by rw [t.exe]; exact hi2,
+                   Or.inl (by have := t.cyc; simp only at this; omega)⟩
+    · -- flushW
+      rename_i i seq pc fc e _
+      simp only [bind, Except.bind, pure, Except.pure] at h
+      split at h
+      · cases h
+      · rename_i s1 h1
+        have f1 : s1.base.eus.length = s.base.eus.length ∧ s1.base.executed = s.base.executed ∧ s1.base.cycles = s.base.cycles := by
+          unfold wuCycleB at h1
+          simp only [bind, Except.bind, pure, Except.pure] at h1
+          split at h1
+          · cases h1
+          · rename_i b hb
+            have f := Proofs.Mvp61.wuCycle_frame hb
+            cases h1
+            exact ⟨f.len, f.exe, f.cyc⟩
+        have t := goFlushW70_tail _ _ _ _ _ _ _ _ _ h
+        have e1 : s'.base.executed = s.base.executed := t.exe.trans f1.2.1
+        exact ⟨t.len.trans f1.1, by rw [e1]; exact Nat.le_refl _, by rw [e1]; exact Nat.le_add_right _ _,
+               Or.inr ⟨e1, by have := t.cyc; rw [f1.2.2] at this; exact this⟩⟩
+
+theorem cycle_tick (app : App) (s : State) :
+    Tick s (cycle app s).1 ∨ ((cycle app s).1 = s ∧ ∃ w, (cycle app s).2 = .done (.panic w)) := by
+  unfold cycle
+  split
+  · rename_i r hr
+    obtain ⟨s', ev⟩ := r
+    exact Or.inl (cycleM_tick hr)
+  · exact Or.inr ⟨rfl, _, rfl⟩
+  · exact Or.inr ⟨rfl, _, rfl⟩
+
+/-- the invariant `executed ≤ cores · cycles` survives a tick -/
+theorem Tick.inv {s s' : State} (t : Tick s s')
+    (h : (s.base.executed : Int) ≤ s.base.eus.length * s.base.cycles) :
+    (s'.base.executed : Int) ≤ s'.base.eus.length * s'.base.cycles := by
+  rcases t.cyc with a | ⟨b1, b2⟩
+  · rw [t.len]
+    have h1 : (s.base.eus.length : Int) * (s.base.cycles + 1) ≤ s.base.eus.length * s'.base.cycles :=
+      Int.mul_le_mul_of_nonneg_left a (Int.natCast_nonneg _)
+    have h2 : (s'.base.executed : Int) ≤ ((s.base.executed + s.base.eus.length : Nat) : Int) := Int.ofNat_le.mpr t.hi
+    rw [Int.mul_add, Int.mul_one] at h1
+    rw [Int.natCast_add] at h2
+    generalize (s.base.eus.length : Int) * s.base.cycles = X at *
+    generalize (s.base.eus.length : Int) * s'.base.cycles = Y at *
+    omega
+  · rw [t.len, b1]
+    exact Int.le_trans h (Int.mul_le_mul_of_nonneg_left b2 (Int.natCast_nonneg _))
+
+theorem runFrom_bound (app : App) : ∀ (fuel : Nat) (s : State) (n : Nat),
+    (runFrom app fuel s n).final.base.eus.length = s.base.eus.length ∧
+    n ≤ (runFrom app fuel s n).ticks ∧
+    (runFrom app fuel s n).final.base.executed + s.base.eus.length * n ≤
+      s.base.executed + s.base.eus.length * (runFrom app fuel s n).ticks ∧
+    ((s.base.executed : Int) ≤ s.base.eus.length * s.base.cycles →
+      ((runFrom app fuel s n).final.base.executed : Int) ≤ s.base.eus.length * (runFrom app fuel s n).final.base.cycles) := by
+  intro fuel
+  induction fuel with
+  | zero => intro s n; exact ⟨rfl, Nat.le_refl _, Nat.le_refl _, fun h => h⟩
+  | succ fuel ih =>
+    intro s n
+    simp only [runFrom]
+    have hc := cycle_tick app s
+    split
+    · rename_i s' hs
+      rw [hs] at hc
+      rcases hc with t | ⟨_, w, hw⟩
+      · have h := ih s' (n + 1)
+        simp only at t
+        obtain ⟨h1, h2, h3, h4⟩ := h
+        refine ⟨h1.trans t.len, by omega, ?_, ?_⟩
+        · rw [t.len] at h3
+          have := t.hi
+          simp only [Nat.mul_add, Nat.mul_one] at h3
+          omega
+        · intro hi
+          rw [← t.len]; exact h4 (t.inv hi)
+      · simp only at hw; cases hw
+    · rename_i s' hh hs
+      rw [hs] at hc
+      rcases hc with t | ⟨he, w, hw⟩
+      · simp only at t
+        refine ⟨t.len, Nat.le_succ n, ?_, ?_⟩
+        · have := t.hi
+          simp only [Nat.mul_add, Nat.mul_one]
+          omega
+        · intro hi
+          rw [← t.len]; exact t.inv hi
+      · simp only at he hw
+        cases hw
+        subst he
+        refine ⟨rfl, Nat.le_succ n, ?_, fun hi => hi⟩
+        simp only [Nat.mul_add, Nat.mul_one]; omega
+
+theorem init_shape {ctx : Model.Context} {par : Nat} {s : State} (h : init ctx par = .ok s) :
+    s.base.eus.length = par ∧ s.base.executed = 0 ∧ s.base.cycles = 0 := by
+  unfold init at h
+  split at h
+  · cases h
+  · simp only [bind, Except.bind, pure, Except.pure] at h
+    split at h
+    · cases h
+    · rename_i b hb
+      split at h
+      · cases h
+      · cases h
+        have := Proofs.Mvp63.init_shape hb
+        exact ⟨this.1, this.2.1, this.2.2.1⟩
+
+/-- **lower bound (C12) for MVP-7.0.**  In a run of the model with `par` cores (one execute unit each), at most `par`
+instructions are executed (their `Run` called) per tick, and the cycle counter is at least `executed / par` — for every
+run (halted, out of fuel, Go panic, `maporder`). -/
+theorem run_executed_le (app : App) (ctx : Model.Context) (par fuel : Nat) :
+    (run app ctx par fuel).final.base.executed ≤ par * (run app ctx par fuel).ticks ∧
+    ((run app ctx par fuel).final.base.executed : Int) ≤ par * (run app ctx par fuel).final.base.cycles := by
+  unfold run
+  split
+  · rename_i s hs
+    obtain ⟨h1, h2, h3⟩ := init_shape hs
+    have h := runFrom_bound app fuel s 0
+    rw [h1, h2, h3] at h
+    simp only [Nat.mul_zero, Nat.add_zero, Nat.zero_add, Int.natCast_zero, Int.mul_zero, Int.le_refl, true_implies] at h
+    exact ⟨h.2.2.1, h.2.2.2⟩
+  · refine ⟨Nat.zero_le _, ?_⟩
+    show (((default : State).base.executed : Nat) : Int) ≤ par * (default : State).base.cycles
+    exact Int.le_of_eq (by rfl)
 
 end Proofs.Mvp70
